@@ -94,3 +94,37 @@ Proof.
   split; [vm_compute; reflexivity|]. split; [vm_compute; reflexivity|].
   intros ph F. unfold nanoc. rewrite F. vm_compute. reflexivity.
 Qed.
+
+(* ---- strings as computed values ---- *)
+(* inside names_apart: + / int_to_string / str_equals / str_concat through a printing call / str_contains / char_at /
+   str_substring of a literal: the evaluator prints the reference's text ("abc-42", then "abc-42!") and passes *)
+Lemma strings_agree :
+  names_apart spstr_good = true /\
+  exists rs sk stk, run_interp 80 spstr_good [] = TDone rs sk stk /\ all_passed rs = true /\
+    map tr_out rs = [[97; 98; 99; 45; 52; 50; 10; 97; 98; 99; 45; 52; 50; 33; 10]]%N /\
+    ref_tests 80 spstr_good =
+      Some [(2%N, Ok (CNormal, [(7%N, (false, VStr [97; 98; 99; 45; 52; 50]%N))])
+                     [97; 98; 99; 45; 52; 50; 10; 97; 98; 99; 45; 52; 50; 33; 10]%N)].
+Proof.
+  split; [vm_compute; reflexivity|]. eexists _, _, _.
+  split; [vm_compute; reflexivity|]. split; [vm_compute; reflexivity|]. split; vm_compute; reflexivity.
+Qed.
+
+(* str_substring with start = length: "" in the language, void in the evaluator: the reference passes the assertion, the
+   evaluator fails it; the program is outside names_apart (clause (e)) *)
+Lemma refuted_substring_past_end : refutes spstr_past_end 80.
+Proof. refute_tac. Qed.
+
+(* char_at outside the string: the reference is undefined (FStrDomain), the evaluator yields void and fails the assertion --
+   interp_correct says nothing (its conclusion is about tests on which the reference is defined) *)
+Lemma char_at_outside_at_compile_time :
+  names_apart spstr_char_at_outside = true /\
+  ref_tests 80 spstr_char_at_outside = Some [(4%N, Fault FStrDomain [])] /\
+  exists rs sk stk, run_interp 80 spstr_char_at_outside [] = TDone rs sk stk /\ all_passed rs = false.
+Proof. split; [vm_compute; reflexivity|]. split; [vm_compute; reflexivity|]. eexists _, _, _. split; vm_compute; reflexivity. Qed.
+
+(* ... and what the gate does with it: the test is reported FAILED, exit status 1, no executable *)
+Lemma gate_refuses_substring_past_end :
+  refutes spstr_past_end 80 /\
+  nanoc {| front_ok := true; later_ok := true |} 80 spstr_past_end [] = NExit 1 false [RTesting 4%N [] false; RFailed 4%N 1; RShadowTestsFailed] [2%N].
+Proof. split; [exact refuted_substring_past_end | vm_compute; reflexivity]. Qed.
